@@ -468,6 +468,10 @@ def c13_jobs(tier):
             subscribe="res", script0="racq0,hold1,rrel0", script1="cwait3,hold1", script2="cwait3,hold1", script3="cwait0,hold1"),
         des("forwarded-subscribe", "condition", b, dl, procs=3, prios="0,1,2", budget=4, cond=1, res=1, ops=ops,
             subscribe="csub", script0="racq0,hold1,rrel0", script1="cwait3,hold1", script2="cwait3,hold1"),
+        # subscriptions made and withdrawn while the simulation runs
+        des("subscribe-dynamic", "condition", b, dl, procs=3, prios="0,1,2", budget=5, cond=1, res=1,
+            ops="csub,cunsub,cwait3,cwait0,csig,setx1,racq0,rrel0,hold0,hold1,tadd1,int1,exit",
+            script0="racq0,csub,hold1,rrel0,cunsub", script1="cwait3,hold1", script2="hold1,cwait3,hold1"),
         des("forwarded-pool", "condition", b, dl, procs=3, prios="0,1,2", budget=4, cond=1, pool=2,
             ops="cwait4,cwait0,csig,setx1,pacq1,pacq2,prel1,prel2,hold1,tadd1,int1,exit", subscribe="pool",
             script0="pacq2,hold1,prel2", script1="cwait4,hold1", script2="cwait4,hold1"),
@@ -515,6 +519,15 @@ def c14_jobs(tier):
         des("buffer-fptrap", "history", 2, dl, procs=3, prios="0,1,1", budget=4, buf=3, fptrap=1,
             ops="recon,recoff,bput1,bput2,bget1,bget2,hold0,hold1,int0,stop0,exit",
             script0="recon,bput2,hold1,bput2", script1="bget1,hold1,bget2,recoff", script2="hold1,bget2"),
+        des("pool-fptrap", "history", 2, dl, procs=3, prios="0,1,2", budget=4, pool=3, fptrap=1,
+            ops="recon,recoff,pacq1,pacq2,ppre2,prel1,prel2,hold0,hold1,int0,stop0,exit",
+            script0="recon,pacq2,hold1,prel2", script1="hold1,pacq2,hold1,recoff", script2="hold2,ppre2,hold1"),
+        des("objectqueue-fptrap", "history", 2, dl, procs=3, prios="0,1,1", budget=4, oq=2, fptrap=1,
+            ops="recon,recoff,oqput0,oqget,hold0,hold1,int0,stop0,exit",
+            script0="recon,oqput0,oqput0,oqput0", script1="hold1,oqget,hold1,recoff", script2="hold1,oqget"),
+        des("priorityqueue-fptrap", "history", 2, dl, procs=3, prios="0,1,1", budget=4, pq=2, fptrap=1,
+            ops="recon,recoff,pqput0,pqput1,pqget,pqcancel,hold0,hold1,int0,stop0,exit",
+            script0="recon,pqput0,pqput1,pqcancel", script1="hold1,pqget,hold1,recoff", script2="hold1,pqget"),
     ]
 
 
@@ -571,7 +584,7 @@ spec("C20", jobs=c20_jobs,
 UNION_OPS = ("hold0,hold1,tadd1,tset1,tcancel0,tclear,yield,resume0,resume1,waitp0,waitp1,waitp2,evsched1,waite0,evcancel0,"
              "int0,int1,int2,stop0,stop1,stopself,exit,prio0.2,prio1.0,start1,"
              "racq0,rpre0,rrel0,pacq1,pacq2,ppre2,prel1,bput2,bget2,oqput0,oqget,pqput1,pqget,pqcancel,pqreprio2,"
-             "cwait0,cwait3,csig,setx1,ccancel1,cremove1,recon,recoff")
+             "cwait0,cwait3,csig,setx1,ccancel1,cremove1,csub,cunsub,recon,recoff")
 
 
 def c10_jobs(tier):
@@ -590,7 +603,8 @@ def c10_jobs(tier):
         dict(des("union-p2-deep", "none", b + 1, dl, procs=2, prios="0,0", budget=4, res=1, pool=2, buf=2, oq=1, pq=1,
                  cond=1, ops=UNION_OPS, script0="hold1,hold1", script1="hold1,int0"), crash_is_violation=True),
         ramp("evwait"), ramp("procwait"), ramp("guardq"), ramp("holders"), ramp("timers", 600), ramp("oqueue", 600),
-        ramp("observers", 600),
+        ramp("observers", 600), ramp("closing"),
+        dict(ramp("closing"), name="ramp-closing-fptrap", opts=dict(mode="closing", fptrap=1)),
     ]
     return jobs
 
